@@ -277,6 +277,7 @@ func checkC12(w *World, r *Report) {
 	c12Chain(w, r)
 	c12SideEffects(w, r)
 	c12ExplicitStatus(w, r, "C12.8")
+	c12HeadersBeforeStatus(w, r)
 	c12Challenge(w, r)
 	c12PlainMediaType(w, r)
 	c12ProxyErrorReachesFinalize(w, r)
@@ -1280,5 +1281,51 @@ func c12ProxyErrorReachesFinalize(w *World, r *Report) {
 	}
 	if n == 0 {
 		r.Undecided(ri, "no ReverseProxy with an ErrorHandler found in the proxy handler")
+	}
+}
+
+// ---- C12.10: response headers are set before the status line is written ------------------------------
+//
+// net/http sends the header map as it is at the first WriteHeader / Write; anything set afterwards
+// is dropped silently (the negotiated Content-Type of an error body, a Location, a challenge).
+// Decided for every function of the handler packages that writes a status on a ResponseWriter: no
+// call that modifies the header map of the same writer is reachable after the status was written.
+func c12HeadersBeforeStatus(w *World, r *Report) {
+	ri := r.Rule("C12.10", 3, "no response header is set after the status line was written: in every function that answers on a ResponseWriter, header modifications precede WriteHeader / Write")
+	n := 0
+	for _, fn := range w.Funcs {
+		if w.isMockFn(fn) || !strings.HasPrefix(fnPkgPath(fn), modPath+"/internal/handler/") || fn.Blocks == nil {
+			continue
+		}
+		var status, mods []ssa.CallInstruction
+		for _, c := range callsIn(fn) {
+			switch callName(c.Common()) {
+			case "net/http.ResponseWriter.WriteHeader", "net/http.ResponseWriter.Write":
+				status = append(status, c)
+			case "net/http.Header.Set", "net/http.Header.Add", "net/http.Header.Del":
+				// on the header map of a ResponseWriter
+				recv := callRecv(c.Common())
+				if hc, _ := resultOfCall(recv); hc != nil && callName(hc.Common()) == "net/http.ResponseWriter.Header" {
+					mods = append(mods, c)
+				}
+			}
+		}
+		if len(status) == 0 {
+			continue
+		}
+		n++
+		r.Analysed(w.FnName(fn))
+		ok, pos := true, fn.Pos()
+		for _, s := range status {
+			for _, m := range mods {
+				if reachableAfter(s, m) {
+					ok, pos = false, m.Pos()
+				}
+			}
+		}
+		r.Ob(ri, w.FnName(fn)+"|headers-before-status", pos, ok, "a response header is set after WriteHeader/Write on the same path: net/http has already sent the headers, so the value never reaches the client (e.g. the negotiated Content-Type of an error body)")
+	}
+	if n == 0 {
+		r.Undecided(ri, "no function of the handler packages writes a response status")
 	}
 }
